@@ -48,7 +48,11 @@ type seqOp struct {
 	Acct  int
 	Nonce uint64
 	Hi    bool
-	K     int // 'B': 0 = c1-1, 1 = c1, 2 = c2-1 (c1 > c2: the two highest distinct costs submitted by the account); 'G': 0 = g1-1, 1 = g1 (highest gas submitted)
+	// 'B': 0 = c1-1, 1 = c2-1 (c1 > c2: the two highest distinct costs submitted by the account, i.e. just below the
+	// costliest replacement / just below the costliest original); 'G': 0 = g1-1, 1 = g2-1 (highest gas values submitted).
+	// The exact values c1 / g1 are not used: a transaction whose cost equals the balance is affordable, and the statement
+	// does not determine that it must be kept, so the oracle could not decide anything there.
+	K int
 }
 
 // the high-priced variant of every slot also asks for more gas, so that a
@@ -83,15 +87,8 @@ func boundary(seq []seqOp, i int) (uint64, bool) {
 		}
 	}
 	sort.Slice(vals, func(a, b int) bool { return vals[a] > vals[b] })
-	switch {
-	case len(vals) == 0:
-		return 0, false
-	case o.K == 0:
-		return vals[0] - 1, true
-	case o.K == 1:
-		return vals[0], true
-	case len(vals) >= 2:
-		return vals[1] - 1, true
+	if o.K < len(vals) {
+		return vals[o.K] - 1, true
 	}
 	return 0, false
 }
@@ -115,9 +112,9 @@ func (o seqOp) String() string {
 	case 'M':
 		return fmt.Sprintf("M(a%d)", o.Acct)
 	case 'B':
-		return fmt.Sprintf("B(a%d,%s)", o.Acct, []string{"c1-1", "c1", "c2-1"}[o.K])
+		return fmt.Sprintf("B(a%d,%s)", o.Acct, []string{"c1-1", "c2-1"}[o.K])
 	case 'G':
-		return fmt.Sprintf("G(%s)", []string{"g1-1", "g1"}[o.K])
+		return fmt.Sprintf("G(%s)", []string{"g1-1", "g2-1"}[o.K])
 	default:
 		if o.Hi {
 			return fmt.Sprintf("P(%d)", seqPriceHi)
@@ -147,7 +144,7 @@ func seqAlphabet() []seqOp {
 	al = append(al, seqOp{Kind: 'M', Acct: 0}, seqOp{Kind: 'M', Acct: 1})
 	al = append(al, seqOp{Kind: 'P', Hi: true}, seqOp{Kind: 'P', Hi: false})
 	for a := 0; a < 2; a++ {
-		for k := 0; k < 3; k++ {
+		for k := 0; k < 2; k++ {
 			al = append(al, seqOp{Kind: 'B', Acct: a, K: k})
 		}
 	}
@@ -379,12 +376,12 @@ func runSequence(sh *seqShared, seq []seqOp, wk *seqWorker) bool {
 				r.chain.announce(b)
 			case 'B':
 				v, _ := boundary(seq, i)
-				refClass = "ref:balance-boundary-head:" + []string{"c1-1", "c1", "c2-1"}[o.K]
+				refClass = "ref:balance-boundary-head:" + []string{"c1-1", "c2-1"}[o.K]
 				b := r.chain.extend(r.chain.head(), nil, map[int]*big.Int{o.Acct: new(big.Int).SetUint64(v)}, spec)
 				r.chain.announce(b)
 			case 'G':
 				v, _ := boundary(seq, i)
-				refClass = "ref:gas-limit-boundary-head:" + []string{"g1-1", "g1"}[o.K]
+				refClass = "ref:gas-limit-boundary-head:" + []string{"g1-1", "g2-1"}[o.K]
 				spec.GasLimit = v
 				b := r.chain.extend(r.chain.head(), nil, nil, spec)
 				r.chain.announce(b)
@@ -539,8 +536,8 @@ func TestC19Seq(t *testing.T) {
 	}
 	m.Rule(fmt.Sprintf("every sequence of length %d (hence every shorter one, as a prefix) over {AddLocal, AddRemotesSync} x 2 accounts x 3 nonces x 2 prices, "+
 		"head event mining an account's lowest pending tx, SetGasPrice high/low, up to renaming of the two (identical) accounts; "+
-		"plus at most one boundary head per sequence (position 3 or later): account balance set to c1-1 / c1 / c2-1 (c1 > c2 the two highest distinct costs the account submitted so far, replacements included; "+
-		"the high-priced variant of a slot also has the higher gas) or block gas limit set to g1-1 / g1 (highest gas submitted); fresh pool per sequence, "+
+		"plus at most one boundary head per sequence (position 3 or later): account balance set to c1-1 / c2-1 (c1 > c2 the two highest distinct costs the account submitted so far, replacements included; "+
+		"the high-priced variant of a slot also has the higher gas) or block gas limit set to g1-1 / g2-1 (highest gas values submitted); fresh pool per sequence, "+
 		"VerifQuiesce after every op; distinct = distinct op prefixes on which all invariants and the permitted-membership reference were evaluated", L))
 	m.Assume("quiescent point = every announced head event handled by the pool's loop (sentinel events) and the pool's own same-head reset served (VerifQuiesce)",
 		"'affordable from its balance' is read per transaction (cost <= balance), the pool's own notion; cumulative overdraft is only counted",
@@ -663,7 +660,7 @@ loop:
 	m.Floor(atomic.LoadInt64(&total), 8)
 	m.Need("ref:fresh-slot", "ref:replace-bump-sufficient", "ref:replace-bump-insufficient", "ref:mine-lowest-pending", "ref:price-change",
 		"outcome:replacement-accepted", "outcome:replacement-rejected", "outcome:promoted", "outcome:queued",
-		"ref:balance-boundary-head:c1-1", "ref:balance-boundary-head:c1", "ref:balance-boundary-head:c2-1",
-		"ref:gas-limit-boundary-head:g1-1", "ref:gas-limit-boundary-head:g1",
-		"outcome:dropped-by-balance-head", "outcome:kept-at-balance-boundary", "outcome:dropped-by-gas-limit-head", "outcome:kept-at-gas-limit-boundary")
+		"ref:balance-boundary-head:c1-1", "ref:balance-boundary-head:c2-1",
+		"ref:gas-limit-boundary-head:g1-1", "ref:gas-limit-boundary-head:g2-1",
+		"outcome:dropped-by-balance-head", "outcome:dropped-by-gas-limit-head")
 }
